@@ -180,7 +180,7 @@ Proof.
   unfold v3_decode_encrypted_response.
   rewrite (shape_cipher_neg s0 s1 tb c tag Htag), (shape_tag_neg s0 s1 tb c tag Htag).
   change (firstn 6 ([131; 112; s0; s1; 32; tb] ++ c ++ tag)) with [131; 112; s0; s1; 32; tb].
-  unfold decrypt_aes_cbc. rewrite (aes_key_ok_32 key Hk), Hdec. cbn [bind].
+  unfold decrypt_aes_cbc. rewrite (aes_key_ok_32 key Hk), Hdec. cbn [catch bind].
   fold tag. rewrite beqb_refl'. cbn [negb idx nth_error bind].
   assert (Hsh : N.to_nat (N.shiftr tb 4) = pad).
   { rewrite N.shiftr_div_pow2. change (2 ^ 4) with 16. unfold tb. lia. }
@@ -202,7 +202,8 @@ Theorem v3_accept_tag k p d : v3_decode_encrypted_response (Some k) p = Ok d ->
     /\ exists pad, idx (firstn 6 p) 5 = Ok pad /\ d = slice dec 2 (length dec - N.to_nat (N.shiftr pad 4)).
 Proof.
   unfold v3_decode_encrypted_response.
-  destruct (decrypt_aes_cbc k (slice_neg p 6 32)) as [dec|] eqn:Ed; cbn [bind]; [|discriminate].
+  destruct (decrypt_aes_cbc k (slice_neg p 6 32)) as [dec|e0] eqn:Ed; cbn [catch bind];
+    [|destruct (existsb (subclass e0) [EValue]); discriminate].
   destruct (negb (beqb _ _)) eqn:Eh; [discriminate|].
   destruct (idx (firstn 6 p) 5) as [h5|] eqn:E5; cbn [bind]; [|discriminate].
   intros H. apply Ok_inj in H. exists dec. split; [reflexivity|]. split.
@@ -260,7 +261,7 @@ Proof.
       replace (length body + 32 - 32)%nat with (length body) by lia. rewrite skipn_app, skipn_all, Nat.sub_diag. reflexivity. }
   destruct (v3_accept_tag _ _ _ Hacc) as (dec & Hd & Hs & _).
   destruct (Hparts tag Ht) as (H1 & H2 & H3). destruct (Hparts tag' Ht') as (H1' & H2' & H3').
-  rewrite H1, H2, H3 in *. unfold v3_decode_encrypted_response. rewrite H1', H2', H3', Hd. cbn [bind]. rewrite Hs.
+  rewrite H1, H2, H3 in *. unfold v3_decode_encrypted_response. rewrite H1', H2', H3', Hd. cbn [catch bind]. rewrite Hs.
   destruct (beqb tag tag') eqn:E; [apply beqb_true in E; congruence|reflexivity].
 Qed.
 
